@@ -133,6 +133,8 @@ func RunFault(sc FaultScenario) (fs []Finding, trace string, n1, n2 int) {
 		}
 	}()
 	w := NewWorld(sc.Cfg)
+	w.SeqGuard = true // commands are issued one at a time: a key lock that is not granted at once never will be
+	defer w.Release()
 	add := func(clause, what string) {
 		d := "none"
 		for i, dv := range sc.Devs {
@@ -257,6 +259,9 @@ func RunFault(sc FaultScenario) (fs []Finding, trace string, n1, n2 int) {
 		sc.Cfg, sc.Prior, opTag(cmd), sc.Devs, short(ar[0]), closed, short(br[0]), short(br[1]), short(fr[0]), short(fr[1]))
 
 	// (a) termination
+	if t := w.LockTrouble(); t != "" {
+		add("key-lock-never-granted", t)
+	}
 	hung, spun, _, _ := w.Diag()
 	if hung {
 		add("hang", "the request never terminates: a handler waits for backend bytes that will never arrive")
